@@ -7,7 +7,7 @@ import tpcommon as T
 from engine import Op, set_mode
 
 PROP = "C01"
-LEAN_MODULES = ["IsoDT.Props.C01"]
+LEAN_MODULES = ["IsoDT.Props.C01", "IsoDT.Props.C01q"]
 RULE = ("time points drawn from boundary lists (year 0/negative/leap/century, month ends, day 365/366, "
         "week 1/52/53, 24:00, offsets incl. -00:30 and +-99:59) x exact durations at unit boundaries; "
         "a case is non-trivial when the addition crosses at least a day boundary; distinct by (op, arguments)")
@@ -211,5 +211,146 @@ class AddFrac(Op):
             return "fractional addition changed representation or offset"
 
 
+def _q(fr):
+    return str(fr.numerator) if fr.denominator == 1 else "%d/%d" % (fr.numerator, fr.denominator)
+
+
+def _parse_q(tok):
+    if tok == "_":
+        return None
+    n, _, d = tok.partition("/")
+    return Fraction(int(n), int(d) if d else 1)
+
+
+class AddQ(Op):
+    """The exact part of `p + d` with fractional slots, against the rational model `addExactQ`
+    (Props/C01q): all three precision forms (decimal seconds / minutes / hours), durations with
+    fractional hours, minutes, seconds and whole days, either sign.  Python computes in binary64, the
+    model in exact rationals, so the two are compared on what the property is about: representation,
+    offset, which slots are present, and the instant to the microsecond (inputs carry at most three
+    decimals, so the exact instant is a multiple of 1 ms and a float error of < 0.5 us cannot change
+    the rounded value)."""
+    prop = PROP
+    name = "addq"
+
+    def gen(self, rng, tier, boost):
+        n = (3000 if tier == "quick" else 60000) * boost
+        if getattr(self, "shard", None):
+            n = n // self.shard[1] + 1
+        for _ in range(n):
+            m = gens.mode(rng)
+            t = T.gen_tp(rng, m, allow24=rng.random() < 0.15)
+            form = rng.choice("smh")
+            frac = Fraction(rng.choice([0, 1, 5, 25, 125, 250, 500, 750, 999, rng.randint(0, 999)]), 1000)
+            if t[4] == 24:
+                frac = Fraction(0)
+
+            def part(scale):
+                r = rng.random()
+                if r < 0.35:
+                    return Fraction(0)
+                k = rng.choice([1, -1]) * rng.choice([1, 59, 60, 61, 3599, 3600, 86399, 86400, rng.randint(0, 10 ** scale)])
+                return Fraction(k, rng.choice([1, 2, 4, 8, 10, 100, 1000]))
+            days = rng.choice([0, 0, 0, 1, -1, 365, -366, rng.randint(-800, 800)])
+            yield (m, t, form, _q(frac), days, _q(part(3)), _q(part(4)), _q(part(6)))
+
+    def slots(self, a):
+        m, t, form, frac, days, dh, dmi, ds = a
+        rep, y, aa, b, hh, mi, ss, tzh, tzm = t
+        fr = _parse_q(frac)
+        if form == "s":
+            return (Fraction(hh), Fraction(mi), ss + fr)
+        if form == "m":
+            return (Fraction(hh), mi + fr, None)
+        return (hh + fr, None, None)
+
+    def line(self, a):
+        m, t, form, frac, days, dh, dmi, ds = a
+        rep, y, aa, b, hh, mi, ss, tzh, tzm = t
+        h_, m_, s_ = self.slots(a)
+        return "addq %s %s %d %d %d %s %s %s %d %d %d %s %s %s" % (
+            m, rep, y, aa, b, _q(h_), "_" if m_ is None else _q(m_), "_" if s_ is None else _q(s_),
+            tzh, tzm, days, dh, dmi, ds)
+
+    @staticmethod
+    def canon(m, rep, date, hh, mi, ss, tzh, tzm):
+        """(representation, offset, slot pattern, instant in whole microseconds)."""
+        if not oracle.date_valid(m, date):
+            return "invalid-date %r" % (date,)
+        inst = (86400 * oracle.date_day_num(m, date) + 3600 * hh + 60 * (mi or 0) + (ss or 0)
+                - 3600 * tzh - 60 * tzm)
+        pat = "hms" if ss is not None else ("hm" if mi is not None else "h")
+        return "%s %d %d %s %d" % (rep, tzh, tzm, pat, round(inst * 10 ** 6))
+
+    def impl(self, a):
+        from metomi.isodatetime.data import TimePoint, Duration
+        m, t, form, frac, days, dh, dmi, ds = a
+        set_mode(m)
+        rep, y, aa, b, hh, mi, ss, tzh, tzm = t
+        kw = dict(year=y, time_zone_hour=tzh, time_zone_minute=tzm, hour_of_day=hh)
+        if not 0 <= y <= 9999:
+            kw["num_expanded_year_digits"] = 3
+        if rep == "c":
+            kw.update(month_of_year=aa, day_of_month=b)
+        elif rep == "o":
+            kw.update(day_of_year=aa)
+        else:
+            kw.update(week_of_year=aa, day_of_week=b)
+        fr = float(_parse_q(frac))
+        if form == "s":
+            kw.update(minute_of_hour=mi, second_of_minute=ss, second_of_minute_decimal=fr)
+        elif form == "m":
+            kw.update(minute_of_hour=mi, minute_of_hour_decimal=fr)
+        else:
+            kw.update(hour_of_day_decimal=fr)
+        p = TimePoint(**kw)
+        d = Duration(days=days, hours=float(_parse_q(dh)), minutes=float(_parse_q(dmi)),
+                     seconds=float(_parse_q(ds)))
+        r = p + d
+        if r.get_is_calendar_date():
+            date = ("c",) + tuple(r.get_calendar_date())
+        elif r.get_is_ordinal_date():
+            date = ("o",) + tuple(r.get_ordinal_date())
+        else:
+            date = ("w",) + tuple(r.get_week_date())
+        h2, m2, s2 = r._hour_of_day, r._minute_of_hour, r._second_of_minute
+        self.last = (h2, m2, s2)
+        return self.canon(m, date[0], date, Fraction(h2), None if m2 is None else Fraction(m2),
+                          None if s2 is None else Fraction(s2), r.time_zone.hours, r.time_zone.minutes)
+
+    def canon_model(self, a, out):
+        f = out.split()
+        if len(f) != 9:
+            return out
+        rep, y, aa, b = f[0], int(f[1]), int(f[2]), int(f[3])
+        date = (rep, y, aa) if rep == "o" else (rep, y, aa, b)
+        return self.canon(a[0], rep, date, _parse_q(f[4]), _parse_q(f[5]), _parse_q(f[6]), int(f[7]), int(f[8]))
+
+    def oracle(self, a, out):
+        m, t, form, frac, days, dh, dmi, ds = a
+        f = out.split()
+        if len(f) != 5:
+            return "fractional addition failed: %s" % out
+        rep, y, aa, b, hh, mi, ss, tzh, tzm = t
+        h_, m_, s_ = self.slots(a)
+        date = (rep, y, aa) if rep == "o" else (rep, y, aa, b)
+        start = (86400 * oracle.date_day_num(m, date) + 3600 * h_ + 60 * (m_ or 0) + (s_ or 0)
+                 - 3600 * tzh - 60 * tzm)
+        want = start + 86400 * days + 3600 * _parse_q(dh) + 60 * _parse_q(dmi) + _parse_q(ds)
+        if abs(int(f[4]) - want * 10 ** 6) > 1:
+            return "p + d is off by %.9f s" % (float(Fraction(int(f[4]), 10 ** 6) - want))
+        if f[0] != rep or (int(f[1]), int(f[2])) != (tzh, tzm):
+            return "p + d changed representation or offset"
+        if f[3] != {"s": "hms", "m": "hm", "h": "h"}[form]:
+            return "p + d changed the precision form (%s from %s)" % (f[3], form)
+        h2, m2, s2 = self.last
+        ok = 0 <= h2 < 24 and (m2 is None or 0 <= m2 < 60) and (s2 is None or 0 <= s2 < 60)
+        if not ok:
+            return "p + d left a time slot out of range: %r" % ((h2, m2, s2),)
+
+    def label(self, a):
+        return "addq/%s/%s" % (a[2], "24" if a[1][4] == 24 else "n")
+
+
 def ops():
-    return [Add(), Sub(), RAdd(), SubIsAddNeg(), AddFrac()]
+    return [Add(), Sub(), RAdd(), SubIsAddNeg(), AddFrac(), AddQ()]
